@@ -202,7 +202,7 @@ EXTRA_NOTES = {
     "C11": "the kinds of retiring events a token has been through (close-all, last close, logout) are part of the state key; copies that are session objects of the copying session.",
     "C12": "inputs the mechanism must refuse (too long, not the fixed size) in the alphabet; every automaton probe runs in a snapshot of its own (a probe may end a left-over "
            "operation and hide it from the next); with no operation active a new one of every kind must be startable.",
-    "C14": "SQLite store lane (same alphabet one level shallower); on every transition a token with an open session must refuse re-initialisation (look-ahead, before merging).",
+    "C14": "SQLite store lane (same alphabet one level shallower); on every transition a token with an open session must refuse re-initialisation (look-ahead, before merging); before every softhsm2-util --delete-token action a proper prefix of the serial and an unknown label must delete nothing.",
     "C16": "directory names are part of the content hash of a crash state (an empty token directory is a state of its own).",
     "C17": "structure-aware mutations of every 8-byte field (type, kind, length, count) of object and token files (fields behind the first boolean value are unaligned); the mechanism "
            "list is fetched with exactly the reported count; repeated names in slots.mechanisms; a call without answer for 150 s (VERIF_CALL_TIMEOUT) is killed and reported as a hang.",
